@@ -23,6 +23,11 @@ def is_model_value(v):
     return isinstance(v, ModelValue)
 
 
+class Native:
+    """base class of contract-side helper objects whose methods the interpreter may call natively (they only shuffle
+    stub objects around: e.g. a stand-in for a networkx node view)"""
+
+
 class Lazy:
     """A field / dict value whose (possibly forking) construction is deferred to its first use, so
     that paths which never read it do not multiply."""
@@ -66,6 +71,11 @@ class Obj:
         object.__setattr__(self, '_fields', dict(fields))
         object.__setattr__(self, '_writes', [])
         object.__setattr__(self, '_fallback', None)
+
+    @property
+    def __class__(self):
+        # isinstance(stub, RealClass) is true natively when the contract declared the stub's class
+        return object.__getattribute__(self, '_cls') or Obj
 
     def __getattr__(self, name):
         f = object.__getattribute__(self, '_fields')
